@@ -46,8 +46,8 @@ class file_monitoring_lru_cache:
             if full_path.exists():
                 path_stat = full_path.stat()
                 return cached_wrapper(
-                    path=full_path,
-                    path_stats=(path_stat.st_mtime_ns, path_stat.st_size),
+                    full_path,
+                    (path_stat.st_mtime_ns, path_stat.st_size),
                     *args,
                     **kwargs)
             else:
